@@ -48,6 +48,10 @@ def parse_view_record(toks):
         rec["CB"] = [t.num(tag) for _ in range(n)]
     t.expect("O")
     rec["O"] = t.array()
+    rec["OC"] = None
+    if t.peek() == "OC":
+        t.s()
+        rec["OC"] = t.array()
     rec["X"] = t.t[t.p:]
     return rec
 
